@@ -108,3 +108,9 @@ def run(rep, program: Program, tier: str) -> None:
     rep.isolate(c09.rule_r9, rep, program, prop=PROP, rule="R6")
     # a state restored from a pickle must keep invalidating its cached values, or later steps use stale forces (shared with C09-R5)
     rep.isolate(c09.rule_r5, rep, program, prop=PROP, rule="R7")
+    # the SoftAbs metric's gradients enter dh1_dpos / dh2_dpos: a step follows the system's own Hamiltonian to second order
+    # only if they are the true derivatives (shared with C11-R1 / C11-R2)
+    from . import c11
+
+    rep.isolate(c11.rule_r1, rep, program, prop=PROP, rule="R8")
+    rep.isolate(c11.rule_r2, rep, program, prop=PROP, rule="R9")
